@@ -63,6 +63,17 @@ def space(tier, seed):
                     # ... and with the limit of the last-added constraint changed between the two runs
                     # (update_constraint under the same name: ids and shapes stay, only the numbers move)
                     items.append({"net": "N2", "sessions": ss, "k": k, "recompute": [], "inner": inner, "sched": INNER[inner], "period": 5, "two_phase": b["a"], "edit": EDIT_LIMIT})
+                # a deep copy of the simulator (made before anything ran) is a simulator of its own
+                items.append({"net": "N2", "sessions": ss, "k": 1, "recompute": [], "inner": "unc", "sched": INNER["unc"], "period": 5, "deepcopy": True})
+    # a recompute request that reaches the queue late (between two run() stages, timestamp in the past)
+    for st1, st2 in (("PS-A", "PS-B"), ("PS-C", "PS-C")):
+        for stay1 in (1, 2):
+            for a2 in (5, 6, 8):
+                for en in ("large", "small"):
+                    ss = [dict(sess(st1, 0, stay1, en), sid="ev0"), dict(sess(st2, a2, 3, "large"), sid="ev1")]
+                    for k in (None, 2, 3):
+                        for inner in ("max2", "unc"):
+                            items.append({"net": "N2", "sessions": ss, "k": k, "recompute": [], "inner": inner, "sched": INNER[inner], "period": 5, "two_phase": a2, "late_rc": True})
     # an explicit early UnplugEvent queued by the user: the simulator's own unplug at the departure finds the station
     # empty - it is still an event of that period
     for ss in S.session_subsets(pool, 1, 2):
@@ -90,6 +101,9 @@ def expected_invocations(scn):
         evt.add(s["d"])
         if s.get("xu") is not None:
             evt.add(s["xu"])
+    if scn.get("late_rc"):
+        # handled in the period in which the second run() starts: one after the last event of the first stage
+        evt.add(max(s["d"] for s in scn["sessions"] if s["a"] < scn["two_phase"]) + 1)
     k, last, out = scn["k"], None, []
     for t in range(L + 1):
         if t in evt or (k is not None and (last is None or t - last >= k)):
@@ -218,6 +232,11 @@ def one_run(scn, mutate):
 
                     cname, coefs, _ = S.NETS[scn["net"]]["constraints"][-1]
                     sim.network.update_constraint(cname, Current(dict(coefs)), scn["edit"], cname)
+                if scn.get("late_rc"):
+                    # a recompute request that arrives late: its timestamp lies two periods in the past
+                    from acnportal.acnsim.events import RecomputeEvent
+
+                    later = list(later) + [RecomputeEvent(sim.iteration - 2)]
                 sim.event_queue.add_events(later)
                 sim.run()
         except Exception as exc:
@@ -340,6 +359,22 @@ def execute(scn):
         out("exception:%s" % type(err).__name__, "recording run raised %r" % err, repr(err), None)
         return sim, periods, log, viol
     check_recording(scn, sim, periods, log, tpl, out)
+    if scn.get("deepcopy"):
+        import copy
+
+        with warnings.catch_warnings():
+            warnings.simplefilter("ignore")
+            orig, _, evs_o, _ = S.build_sim(scn, monitor=False)
+            twin = copy.deepcopy(orig)
+            try:
+                twin.run()  # the ORIGINAL stays at period 0 while its copy runs
+                if not (np.array_equal(twin.charging_rates, sim.charging_rates) and np.array_equal(twin.pilot_signals, sim.pilot_signals) and S.events_key(twin) == S.events_key(sim)):
+                    out("deepcopy:copy-runs-differently", "a deep copy of the simulator, run on its own, does not reproduce the simulation (its scheduler must observe the copy, not the original)", np.array(twin.charging_rates).tolist(), np.array(sim.charging_rates).tolist())
+                if orig.iteration != 0 or any(e.energy_delivered != 0 for e in evs_o.values()):
+                    out("deepcopy:original-altered", "running the deep copy advanced / charged the original", orig.iteration, 0)
+            except Exception as exc:
+                guard(exc)
+                out("deepcopy:exception:%s" % type(exc).__name__, "running a deep copy of the simulator raised %r" % (exc,), repr(exc), None)
     sim2, rec2, evs2, periods2, log2, _, err2 = one_run(scn, mutate=True)
     if err2 is not None:
         out("mutating:exception:%s" % type(err2).__name__, "run with the mutating scheduler raised %r" % err2, repr(err2), None)
